@@ -47,8 +47,21 @@ def write(prop, tier, seed, obls, results, wall, nviol, extra=None):
         samples.append(dict(obligation=o.name, grade=o.grade, what=o.note, cmd=r.get('cmd'),
                             cbmc_properties=[('%s %s' % (p[0], p[1]))[:140] for p in (r.get('props') or [])
                                              if 'postcondition' in p[1] or 'assertion' in p[0]][:6]))
+    # level: what MANIFEST.json claims for the property; a 'proof' claim needs at least one proof-grade obligation in this run,
+    # otherwise the run is reported as 'other' (bounded contract checking) -- bounded obligations are never counted as proved
+    level = 'proof'
+    try:
+        man = json.load(open(os.path.join(VERIF, 'MANIFEST.json')))
+        for c in man.get('checks', []):
+            if c.get('property_id') == prop:
+                level = c.get('level_claimed', {}).get('category', 'proof')
+    except Exception:
+        pass
+    if level == 'proof' and not proof:
+        level = 'other'
+    nb_ok = len([o for o in bounded if results[o.name]['status'] == 'pass'])
     ev = dict(
-        property_id=prop, tier=tier, seed=seed, level='proof',
+        property_id=prop, tier=tier, seed=seed, level=level,
         coverage=dict(
             obligations=len(proof), discharged=len(disc),
             checker_cmd='goto-cc --function <h> tu.c && goto-instrument --dfcc <h> [--enforce-contract f] [--replace-call-with-contract g] [--apply-loop-contracts] && cbmc --bounds-check --pointer-check --pointer-overflow-check --signed-overflow-check --div-by-zero-check --undefined-shift-check [--unwind N --unwinding-assertions] [--external-sat-solver kissat]  (driver: ./check %s --tier %s)' % (prop, tier),
@@ -64,7 +77,11 @@ def write(prop, tier, seed, obls, results, wall, nviol, extra=None):
                             rewrites=REWRITES, drops=DROPS),
             not_proved=[dict(name=o.name, status=results[o.name]['status'], reason=(results[o.name].get('reason') or '')[:200])
                         for o in obls if results[o.name]['status'] not in ('pass',)],
-            explanation='obligations/discharged count proof-grade (unbounded or domain-complete) obligations only; bounded stand-ins are listed under "bounded" and never counted as proved',
+            bounded_obligations=len(bounded), bounded_discharged=nb_ok,
+            explanation=('obligations/discharged count proof-grade (unbounded or domain-complete) obligations only; bounded stand-ins are listed under "bounded" and never counted as proved'
+                         if level == 'proof' else
+                         'bounded contract checking, not a proof: %d contract obligations on the real (extracted) code were discharged by CBMC for ALL symbolic inputs up to the bound stated with each '
+                         'obligation (%d of %d discharged); %d proof-grade obligations' % (len(bounded), nb_ok, len(bounded), len(proof))),
         ),
         assumptions=ASSUMPTIONS + (extra or []),
         wall_s=round(wall, 1), violations=nviol,
